@@ -12,6 +12,7 @@ open Tcell Driver
 def parseVariant (s : String) : SimVariant :=
   match s.toList with
   | [a, b, c, d, e] => { injectLE := a == 'r', injectSkipErr := b == 'r', setSizeEvent := c == 'r', lastColClean := d == 'r', combElide := e == 'r' }
+  | [a, b, c, d, e, f] => { injectLE := a == 'r', injectSkipErr := b == 'r', setSizeEvent := c == 'r', lastColClean := d == 'r', combElide := e == 'r', fillZW := f == 'r' }
   | _ => {}
 
 def parseEncTable (s : String) : List (Rune × EncResult) :=
@@ -52,7 +53,7 @@ def drain (s : Sim) : Sim × String :=
 def stepOp (rw : Rune → Int) (v : SimVariant) (enc : Encoder) (s : Sim) (op : String) : Sim × Option String :=
   match words op with
   | ["S", x, y, m, c, st] => ({ s with back := s.back.setContent rw (toInt! x) (toInt! y) (toInt! m) (intList c) (Cb.parseStyle st) }, none)
-  | ["F", r, st] => ({ s with back := s.back.fill (toInt! r) (Cb.parseStyle st) }, none)
+  | ["F", r, st] => ({ s with back := s.back.fillV v.fillZW rw (toInt! r) (Cb.parseStyle st) }, none)
   | ["Y", st] => ({ s with style := Cb.parseStyle st }, none)
   | ["C", x, y] => (s.setCursor (toInt! x) (toInt! y), none)
   | ["W"] => (s.showScr v enc, none)
